@@ -1,5 +1,6 @@
 """C04 - network state mirrors what the nodes reported; callbacks are exact."""
 import os
+import shutil
 from concurrent.futures import ProcessPoolExecutor
 
 from harness import gwcheck
@@ -11,7 +12,8 @@ TRANSLATORS = ["unicode_tables", "tables"]
 RULE = ("half grammar-generated histories (10-40 ops: inbound lines of every handler kind valid and invalid, known/unknown "
         "nodes and children, set_child_value / update_fw calls, pumps), half directed ones (second presentation of a known "
         "child, re-presented nodes, traffic of unknown nodes/children, id requests, repeated reports of one value type, "
-        "attribute reports) over 5 versions x threaded/asyncio x plain/MQTT; every history with a callback is run twice, "
+        "attribute reports) over 5 versions x threaded/asyncio x plain/MQTT, 30% with persistence and periodic save ticks (so that "
+        "the unsaved-changes flag is observable); every history with a callback is run twice, "
         "with a returning and with a raising callback, and the two runs must be identical. The monitor folds the accepted "
         "lines through an independent reference meaning and compares the real tree after every processed line. "
         "non-trivial = distinct history with at least 3 tree-changing lines and at least one callback")
@@ -31,6 +33,11 @@ def build_cases(ctx):
         cfg = gwcheck.make_cfg(rng)
         cfg["callback"] = rng.random() < 0.9
         cases.append({"id": f"c04d-{ctx.seed}-{ctx.scale}-{i}", "cfg": cfg, "ops": scenarios_a.c04_directed(rng, cfg)})
+    for i, c in enumerate(cases):          # 30% with persistence and save ticks: the dirty flag is observable there
+        rng = ctx.rng("c04p", i)
+        c["_fmt"] = rng.choice(["json", "pickle"]) if rng.random() < 0.3 else None
+        if c["_fmt"]:
+            c["ops"] = scenarios_a.sprinkle_persistence(rng, c["ops"], 0.12, 0.0)
     return cases
 
 
@@ -53,13 +60,22 @@ def pair_diff(a, b):
 
 def run(ctx, res):
     cases = build_cases(ctx)
-    recs = gwcheck.run_cases(ctx, res, cases, MONITORS, SCOPE, "c04")
+    fmts = {c["id"]: c.pop("_fmt") for c in cases}
+    root = scenarios_a.assign_persist(cases, "c04", lambda i, c: fmts[c["id"]])
+    try:
+        recs = gwcheck.run_cases(ctx, res, cases, MONITORS, SCOPE, "c04")
+    finally:
+        shutil.rmtree(root, ignore_errors=True)
     # the same histories with the callback's behaviour flipped (raising <-> returning): nothing else may change
     paired = [r for r in recs if r["case"]["cfg"].get("callback", True)]
     twins = [dict(twin(r["case"]), monitors=MONITORS) for r in paired]
+    root = scenarios_a.assign_persist(twins, "c04t", lambda i, c: fmts[c["id"][:-5]])
     jobs = min(16, os.cpu_count() or 4)
-    with ProcessPoolExecutor(jobs) as ex:
-        touts = [o for part in ex.map(gwcheck.impl_chunk, gwcheck.chunks(twins, jobs * 2)) for o in part]
+    try:
+        with ProcessPoolExecutor(jobs) as ex:
+            touts = [o for part in ex.map(gwcheck.impl_chunk, gwcheck.chunks(twins, jobs * 2)) for o in part]
+    finally:
+        shutil.rmtree(root, ignore_errors=True)
     for r, t, (outs, viol, _stats) in zip(paired, twins, touts):
         res.count("pair:raising-vs-returning-callback")
         for (_mon, key, what) in viol:
@@ -79,11 +95,19 @@ def run(ctx, res):
 
 
 def replay(ctx, case):
-    c = case["case"] if "case" in case else case
-    out = gwcheck.replay_case(ctx, c)
-    if c.get("kind") == "cb-pair":
-        a, _, _ = gwcheck.impl_case(dict(c, monitors=[]))
-        b, _, _ = gwcheck.impl_case(dict(twin(c), monitors=[]))
-        out["pair_first_diff"] = pair_diff(a, b)
-        out["violates"] = out["violates"] or out["pair_first_diff"] is not None
-    return out
+    c0 = case["case"] if "case" in case else case
+    c, root = scenarios_a.relocated(c0, "c04")
+    try:
+        out = gwcheck.replay_case(ctx, c)
+        if c0.get("kind") == "cb-pair":
+            runs = []
+            for variant in (c, twin(c)):
+                shutil.rmtree(root, ignore_errors=True)
+                if variant["cfg"].get("persist"):
+                    root.mkdir(parents=True, exist_ok=True)
+                runs.append(gwcheck.impl_case(dict(variant, monitors=[]))[0])
+            out["pair_first_diff"] = pair_diff(*runs)
+            out["violates"] = out["violates"] or out["pair_first_diff"] is not None
+        return out
+    finally:
+        shutil.rmtree(root, ignore_errors=True)
